@@ -20,7 +20,7 @@ RULE = (
     "through sample_from_manifest: number -> (batch row, position) must be the reference bijection (1-based Dominion, "
     "0-based Hart) with the position inside the batch's size, selection_order = position in the sample, phantom manual "
     "record iff the card is in the appended phantom batch; refusals for bound < total and CVRs > total; "
-    "sample_from_cvrs on vendor-format lists with phantoms for every ordered sample of <= 3.  Non-trivial = manifest with "
+    "sample_from_cvrs on vendor-format lists with phantoms for every ordered sample of <= 3; manifests with counts in the hundreds of thousands (refusal exact to one card, lookups at every batch boundary) and one sample of 300/2500 draws.  Non-trivial = manifest with "
     "an empty batch or a phantom batch; distinct = distinct (vendor, manifest, bound)"
 )
 ASSUMPTIONS = ["(tabulator, batch) pairs are unique in a manifest", "sample numbers are valid (inside the range the prepared manifest accounts for)"]
@@ -149,7 +149,89 @@ def judge_lookup(vendor, sizes, extra, man, sample):
     return out
 
 
+HUGE = [(100000, 50001), (60000, 0, 90001), (1000000, 1)]
+
+
+def judge_huge(vendor, sizes):
+    """counts in the hundreds of thousands: the refusal is exact to one card; lookups at every batch boundary"""
+    total = sum(sizes)
+    out = []
+    for bound, n_cvrs, why in ((total - 1, 0, "bound one card below the manifest"), (total, total + 1, "one CVR more than cards")):
+        try:
+            prep(vendor, sizes, bound, n_cvrs)
+            out.append((f"C17|{vendor}|prep_manifest|not-refused", f"prep_manifest accepted a manifest of {total} cards with bound {bound} and {n_cvrs} CVRs ({why})"))
+        except AssertionError:
+            pass
+        except Exception as e:  # noqa
+            out.append((f"C17|{vendor}|prep_manifest|refusal-exception|{type(e).__name__}", f"{why}: raised {type(e).__name__}"))
+    try:
+        man, mc, ph = prep(vendor, sizes, total + 2, total)
+    except Exception as e:  # noqa
+        return out + [(f"C17|{vendor}|prep_manifest|exception|{type(e).__name__}", f"{type(e).__name__}: {str(e)[:80]}")]
+    if int(mc) != total or int(ph) != 2:
+        out.append((f"C17|{vendor}|prep_manifest|counts", f"manifest_cards={mc}, phantoms={ph}; expected {total}, 2"))
+    base = 1 if vendor == "dominion" else 0
+    cum = np.cumsum(list(sizes) + [2])
+    edges = sorted({base, base + total + 1} | {int(c) + base - 1 for c in cum if c > 0} | {int(c) + base for c in cum[:-1]})
+    rows = [(10 + i, i + 1) if vendor == "dominion" else (f"t{i}", f"b{i}") for i in range(len(sizes))] + [("phantom", 1)]
+    for s_ in edges:
+        k = int(np.searchsorted(cum, s_ - base, side="right"))
+        pos = s_ - base - (int(cum[k - 1]) if k else 0) + (1 if vendor == "dominion" else 0)
+        want = f"{rows[k][0]}-{rows[k][1]}-{pos}"
+        lv = []
+        try:
+            cards, order, mph = (Dominion if vendor == "dominion" else Hart).sample_from_manifest(man, [s_])
+            if list(order) != [want]:
+                lv.append((f"C17|{vendor}|lookup|wrong-card", f"sample number {s_} of a manifest with batches {list(sizes)} should be card {want}, got {list(order)}"))
+            elif (len(mph) == 1) != (k == len(sizes)):
+                lv.append((f"C17|{vendor}|lookup|phantom-mvrs", f"sample number {s_}: phantom manual records {[m.id for m in mph]}"))
+        except Exception as e:  # noqa
+            lv.append((f"C17|{vendor}|sample_from_manifest|exception|{type(e).__name__}", f"{type(e).__name__}: {str(e)[:80]}"))
+        out += lv
+    return out
+
+
+def judge_long_sample(vendor, n_draws):
+    """one long sample (every card of a manifest, from the last to the first): selection_order is the draw position throughout"""
+    sizes = (n_draws // 2, 0, n_draws - n_draws // 2)
+    man, mc, ph = prep(vendor, sizes, n_draws, 0)
+    base = 1 if vendor == "dominion" else 0
+    sample = list(range(base + n_draws - 1, base - 1, -1))
+    try:
+        cards, order, mph = (Dominion if vendor == "dominion" else Hart).sample_from_manifest(man, sample)
+    except Exception as e:  # noqa
+        return [(f"C17|{vendor}|sample_from_manifest|exception|{type(e).__name__}", f"{type(e).__name__}: {str(e)[:80]}")]
+    ref = ref_cards(vendor, sizes, 0)
+    for i, s_ in enumerate(sample):
+        r, tab, batch, pos, _ = ref[s_]
+        e = order.get(f"{tab}-{batch}-{pos}")
+        if e is None or e["selection_order"] != i:
+            return [(f"C17|{vendor}|lookup|selection-order", f"sample of {n_draws} draws: the card drawn {i}-th has order entry {e}")]
+    if len(order) != n_draws:
+        return [(f"C17|{vendor}|lookup|cards-list", f"{len(order)} cards for {n_draws} distinct sample numbers")]
+    return []
+
+
 def run_shard(sh, rec):
+    if sh[0] == "huge":
+        for vendor in ("dominion", "hart"):
+            for sizes in HUGE:
+                rec.state()
+                rec.trans()
+                rec.evals(12)
+                rec.vac("huge_manifests")
+                for key, what in judge_huge(vendor, sizes):
+                    rec.violate(key, what, {"kind": "huge", "vendor": vendor, "sizes": list(sizes)})
+        return
+    if sh[0] == "long":
+        _, vendor, n_draws = sh
+        rec.state()
+        rec.trans()
+        rec.evals()
+        rec.vac("long_samples")
+        for key, what in judge_long_sample(vendor, n_draws):
+            rec.violate(key, what, {"kind": "long", "vendor": vendor, "n": n_draws})
+        return
     if sh[0] == "cvrs":
         vendor = sh[1]
         for n in (1, 2, 3, 4):
@@ -210,7 +292,9 @@ def run_shard(sh, rec):
 
 def explore(tier, seed):
     B, S = PLAN[tier]
-    sh = [("cvrs", "dominion"), ("cvrs", "hart")]
+    sh = [("cvrs", "dominion"), ("cvrs", "hart"), ("huge",)]
+    for vendor in ("dominion", "hart"):
+        sh.append(("long", vendor, 300 if tier == "quick" else 2500))
     for vendor in ("dominion", "hart"):
         for b in range(1, B + 1):
             for sizes in itertools.product(range(S + 1), repeat=b):
@@ -219,6 +303,10 @@ def explore(tier, seed):
 
 
 def run_case(case):
+    if case["kind"] == "huge":
+        return judge_huge(case["vendor"], tuple(case["sizes"]))
+    if case["kind"] == "long":
+        return judge_long_sample(case["vendor"], case["n"])
     if case["kind"] == "cvrs":
         return [(k.replace("C08|", "C17|"), w) for k, w in c08.judge_vendor(case["vendor"], tuple(case["layout"]), case["sample"])]
     sizes = tuple(case["sizes"])
